@@ -391,7 +391,7 @@ func drawScenario(t *rapid.T) Scenario {
 		LifetimeMs:  rapid.SampledFrom([]int{3, 10, 40, 120}).Draw(t, "lifetime"),
 		CleanupMs:   rapid.SampledFrom([]int{1, 2, 5}).Draw(t, "cleanup"),
 		LimitBodies: rapid.SampledFrom([]int{1, 2, 2, 50}).Draw(t, "limit"),
-		BumpEveryMs: rapid.SampledFrom([]int{1, 3, 8}).Draw(t, "bump"),
+		BumpEveryMs: rapid.SampledFrom([]int{1, 3, 8, 200}).Draw(t, "bump"), // 200: versions rarely change, so expired entries are revalidated (304) all the time
 	}
 	for r := 0; r < s.Resources; r++ {
 		s.BaseLen = append(s.BaseLen, rapid.SampledFrom([]int{50, 3000, 70000, 200000}).Draw(t, "len"))
